@@ -594,7 +594,7 @@ theorem collector_vote_quorum (k : Keys) (c : RCfg) (w : Who) (sg : Nat → Sig)
     hnc hbase'.lock hbase'.committed hbase'.blocks hbase'.fetchable hbase'.prune hf hqcok
   let F : RState := { F0 with out := F0.out ++ [.sendVote L3 (.multi c.scheme [⟨c.id, bytes'⟩]) (pname (j + 1 + 1))] }
   have hadv : (advanceView k c { qc := some qc }).run sC = pure ((), F) := by
-    rw [advanceView_move k c sC qc (hb w sg' (j + 1)) ha hver hlk' (by rw [hsCview]; show j + 1 ≤ (hqc sg' (j + 1)).view; rw [hqc_view]; exact Nat.le_refl _)]
+    rw [advanceView_move k c sC qc (hb w sg' (j + 1)) ha hver hlk' (by rw [hsCview]; show j + 1 = (hqc sg' (j + 1)).view; rw [hqc_view])]
     rw [if_pos (by rw [hsCview]; exact hlead), hmhq]
     exact hrun
   have ht2 : (tick k c).run sB = pure (true, F) :=
